@@ -133,3 +133,95 @@ func init() { register(ruleRuneWrite) }
 func sortFuncs(fns []*ssa.Function) {
 	sort.Slice(fns, func(i, j int) bool { return fns[i].String() < fns[j].String() })
 }
+
+// --- R-COMMENT: the comment terminator is made of characters read after the opener -----------------
+
+// valueSources: the non-phi values v can be.
+func valueSources(v ssa.Value, seen map[ssa.Value]bool, out *[]ssa.Value) {
+	if v == nil || seen[v] {
+		return
+	}
+	seen[v] = true
+	switch x := v.(type) {
+	case *ssa.Phi:
+		for _, e := range x.Edges {
+			valueSources(e, seen, out)
+		}
+	case *ssa.Convert:
+		valueSources(x.X, seen, out)
+	case *ssa.ChangeType:
+		valueSources(x.X, seen, out)
+	default:
+		*out = append(*out, v)
+	}
+}
+
+var ruleComment = &Rule{
+	Name: "R-COMMENT", NeedSSA: true,
+	Doc: "in the lexer's comment scanner the `*` of the closing `*/` is a character read inside the scanner, after the opener: the value compared with '*' in the terminator test never comes from the scanner's parameter (the opener's own `*`), so `/*/` does not close a comment",
+	Run: func(p *Prog) *RuleOut {
+		out := newOut("R-COMMENT")
+		lexT, _ := lookupNamed(p.Pkgs[pkgParser].Types, "lexer")
+		n := 0
+		var fns []*ssa.Function
+		for fn := range p.AllFns {
+			if fnPkgPath(fn) == pkgParser && fn.Blocks != nil && fn.Signature.Recv() != nil && namedOf(fn.Signature.Recv().Type()) == lexT {
+				fns = append(fns, fn)
+			}
+		}
+		sortFuncs(fns)
+		for _, fn := range fns {
+			for _, b := range fn.Blocks {
+				iff, ok := b.Instrs[len(b.Instrs)-1].(*ssa.If)
+				if !ok {
+					continue
+				}
+				bo, ok := iff.Cond.(*ssa.BinOp)
+				if !ok || bo.Op != token.EQL {
+					continue
+				}
+				if k, ok := constInt(bo.Y); !ok || k != '*' {
+					continue
+				}
+				// the true successor tests the next character against '/'
+				t := b.Succs[0]
+				iff2, ok := t.Instrs[len(t.Instrs)-1].(*ssa.If)
+				if !ok {
+					continue
+				}
+				bo2, ok := iff2.Cond.(*ssa.BinOp)
+				if !ok || bo2.Op != token.EQL {
+					continue
+				}
+				if k, ok := constInt(bo2.Y); !ok || k != '/' {
+					continue
+				}
+				n++
+				key := fnName(fn) + ": the closing `*/` starts after the opener"
+				var srcs []ssa.Value
+				valueSources(bo.X, map[ssa.Value]bool{}, &srcs)
+				bad := ""
+				for _, s := range srcs {
+					switch x := s.(type) {
+					case *ssa.Parameter:
+						bad = "parameter " + x.Name() + " (the opener's own `*`)"
+					case *ssa.Call:
+						// a character read by the lexer
+					default:
+						bad = s.String()
+					}
+				}
+				if bad == "" {
+					out.ok(key, p.pos(iff.Pos()), fnName(fn), "the `*` of the terminator is always a character read inside the scanner")
+				} else {
+					out.viol(key, p.pos(bo.Pos()), fnName(fn), "the first character of the terminator test can be "+bad+": the three characters `/*/` are taken for a complete comment and the rest of the comment is lexed as path text")
+				}
+			}
+		}
+		out.Counts["terminator_tests"] = n
+		out.Floors["terminator_tests"] = 1
+		return out
+	},
+}
+
+func init() { register(ruleComment) }
